@@ -1,7 +1,7 @@
 (* C12 -- "stops exactly at the final time", RungeKutta42::iterate / RungeKutta54::iterate as they are in the pinned
    tree (model adapt_iterate false; selected by check.py when that model is the one that corresponds to /repo). *)
 From Coq Require Import Reals List.
-From C12 Require Import C12Spec C12Model C12Proofs.
+From C12 Require Import C12Model C12LoopProofs.
 Import ListNotations.
 Local Open Scope R_scope.
 
